@@ -98,6 +98,18 @@ def check_segments(n, changes):
             return f"{kind} iter lengths"
         if n and struc.concatenate(parts) != arr:
             return f"{kind}: concatenating the iterated segments does not reproduce the array"
+        # the same views on a stack (2 models and n models: the atom axis is the last one)
+        for depth in ((2, n) if n else ()):
+            st = struc.stack([arr] * depth)
+            if f["get_KIND_starts"](st).tolist() != starts_ref or f["get_KIND_count"](st) != len(starts_ref):
+                return f"{kind} starts / count on a stack of {depth}"
+            if f["get_KIND_masks"](st, np.arange(n)).tolist() != [[seg_of[j] == seg_of[i] for j in range(n)] for i in range(n)]:
+                return f"{kind} masks on a stack of {depth}"
+            sparts = list(f["KIND_iter"](st))
+            if [(type(p_).__name__, p_.stack_depth(), p_.array_length()) for p_ in sparts] != [("AtomArrayStack", depth, len(s_)) for s_ in segs]:
+                return f"{kind} iter on a stack of {depth}: {[(type(p_).__name__, p_.shape) for p_ in sparts]}"
+            if any(p_.res_id.tolist() != [res[i] for i in s_] for p_, s_ in zip(sparts, segs)):
+                return f"{kind} iter on a stack of {depth}: wrong atoms"
     if n:
         ids, names = struc.get_residues(arr)
         if ids.tolist() != [res[s] for s in rstarts] or names.tolist() != [name[s] for s in rstarts]:
@@ -141,9 +153,24 @@ def check_molecules(n, bits):
     masks = struc.get_molecule_masks(arr)
     if sorted(sorted(np.where(m)[0].tolist()) for m in masks) != want:
         return "molecule masks"
+    arr.set_annotation("tag", np.arange(n))
     its = list(struc.molecule_iter(arr))
-    if sorted(p.array_length() for p in its) != sorted(len(c) for c in want):
-        return "molecule_iter"
+    if sorted(sorted(p.tag.tolist()) for p in its) != want:
+        return f"molecule_iter yields atoms {sorted(sorted(p.tag.tolist()) for p in its)}, components {want}"
+    # the same on a stack of 2 and of n models (the atom axis is the last one; depth == atom count is the confusable case)
+    for depth in (2, max(n, 1)):
+        st = struc.stack([arr] * depth)
+        st.coord[1:] += 1
+        got = sorted(sorted(int(x) for x in m) for m in struc.get_molecule_indices(st))
+        if got != want:
+            return f"get_molecule_indices on a stack of {depth}: {got}"
+        if sorted(sorted(np.where(m)[0].tolist()) for m in struc.get_molecule_masks(st)) != want:
+            return f"molecule masks on a stack of {depth}"
+        parts = list(struc.molecule_iter(st))
+        if any(not isinstance(p, struc.AtomArrayStack) or p.stack_depth() != depth for p in parts):
+            return f"molecule_iter on a stack of {depth} yields {[type(p).__name__ + str(p.shape) for p in parts]}"
+        if sorted(sorted(p.tag.tolist()) for p in parts) != want:
+            return f"molecule_iter on a stack of {depth} yields atoms {sorted(sorted(p.tag.tolist()) for p in parts)}, components {want}"
     for root in range(n):
         fc = sorted(int(x) for x in struc.find_connected(bl, root))
         if fc != [c for c in want if root in c][0]:
